@@ -160,8 +160,93 @@ fn run_library(ctx: &mut Ctx) {
     }
 }
 
+/// The MiniCairo space as library crates: every enumerated program becomes a module of a library whose entry
+/// function a one-line dependent calls; the dependent's Sierra (which contains the library function, or its
+/// inlined body) must be the same whether the library comes from source or from its cache.  This pushes a few
+/// thousand systematically varied function bodies (expressions, control skeletons, data movement, collections,
+/// liveness, member routing) through cache serialization.
+fn run_minicairo_library(ctx: &mut Ctx) {
+    let tier = ctx.tier;
+    let stride = tier.pick(16, 1);
+    let cases: Vec<crate::c01::Case> = crate::c01::all_cases(tier).into_iter().enumerate().filter(|(i, c)| i % stride == 0 && !c.name.starts_with("g6:struct")).map(|(_, c)| c).collect();
+    let cfg = Cfg::DEFAULT;
+    for (chunk_i, chunk) in cases.chunks(100).enumerate() {
+        ctx.case(
+            || json!({"space":"minicairo-library","chunk":chunk_i,"first":chunk[0].name}),
+            |ctx| {
+                let mut lib = String::new();
+                for (i, c) in chunk.iter().enumerate() {
+                    let src = crate::mini::pprog(&c.prog).replace("\nfn f(", "\npub fn f(");
+                    lib.push_str(&format!("pub mod m{i} {{\n{src}}}\n"));
+                }
+                let blob = {
+                    let mut gdb = new_db(&cfg);
+                    let ci = set_src(&mut gdb, "mylib", &lib);
+                    let ids = cairo_lang_filesystem::ids::CrateInput::into_crate_ids(&gdb, vec![ci]);
+                    match guarded(|| generate_crate_cache(&gdb, ids[0])) {
+                        Ok(Ok(b)) => b,
+                        Ok(Err(e)) => {
+                            ctx.violation("cache-generation-fails", format!("generating the cache of an error-free library crate fails: {e:?}"), json!({"chunk": chunk_i, "first": chunk[0].name}));
+                            return;
+                        }
+                        Err((loc, msg)) => {
+                            ctx.violation(panic_sig(&loc, &msg), format!("cache generation panicked: {msg}"), json!({"chunk": chunk_i, "first": chunk[0].name}));
+                            return;
+                        }
+                    }
+                };
+                let mut sdb = new_db(&cfg);
+                set_src_deps(&mut sdb, "mylib", &lib, &[], None);
+                let mut cdb = new_db(&cfg);
+                set_src_deps(&mut cdb, "mylib", &lib, &[], Some(blob));
+                for (i, c) in chunk.iter().enumerate() {
+                    if !ctx.sub(|| json!({"program": c.name, "cached_crate": "minicairo-library"})) {
+                        continue;
+                    }
+                    let Some(f) = c.prog.funcs.iter().find(|f| f.name == "f") else { continue };
+                    let params: Vec<String> = c.params.iter().enumerate().map(|(k, t)| format!("p{k}: {}", t.name())).collect();
+                    let args: Vec<String> = (0..c.params.len()).map(|k| format!("p{k}")).collect();
+                    let code = format!("fn f({}) -> {} {{ mylib::m{i}::f({}) }}\n", params.join(", "), f.ret.name(), args.join(", "));
+                    ctx.count("evaluations", 1);
+                    ctx.distinct(&("minicairo-library", c.name.as_str()));
+                    let obs = |db: &mut RootDatabase| {
+                        let ci = set_src_deps(db, "test", &code, &["mylib"], None);
+                        let (diag, has_err) = diagnostics(db, &ci);
+                        let s = if has_err { "<errors>".to_string() } else { sierra(db, &ci).map(|p| p.to_string()).unwrap_or_else(|e| format!("<{e}>")) };
+                        (diag, s)
+                    };
+                    match (guarded(|| obs(&mut sdb)), guarded(|| obs(&mut cdb))) {
+                        (Ok(a), Ok(b)) => {
+                            ctx.outcome(if a.1.starts_with('<') { "mini-dependent-with-errors" } else { "mini-dependent-compiles" });
+                            if a.1.starts_with('<') {
+                                ctx.note(format!("minicairo library dependent {} does not compile: {}", c.name, a.0.chars().take(200).collect::<String>()));
+                            }
+                            if a.0 != b.0 {
+                                ctx.violation("diagnostics-differ-with-cache:minicairo-library", "diagnostics differ between library-from-source and library-from-cache", json!({"program": c.name, "source": a.0.chars().take(600).collect::<String>(), "cache": b.0.chars().take(600).collect::<String>()}));
+                            } else if a.1 != b.1 {
+                                let k = a.1.bytes().zip(b.1.bytes()).position(|(x, y)| x != y).unwrap_or(0);
+                                ctx.violation(
+                                    "sierra-differs-with-cache:minicairo-library",
+                                    format!("Sierra differs near {:?} vs {:?}", &a.1[k.saturating_sub(80)..(k + 80).min(a.1.len())], &b.1[k.saturating_sub(80)..(k + 80).min(b.1.len())]),
+                                    json!({"program": c.name, "library_module": crate::mini::pprog(&c.prog)}),
+                                );
+                            }
+                        }
+                        (Err((loc, msg)), Ok(_)) | (Ok(_), Err((loc, msg))) => {
+                            ctx.violation(format!("panic-only-on-one-side:{}", panic_sig(&loc, &msg)), format!("one of (source, cache) panics: {loc}: {msg}"), json!({"program": c.name}));
+                            return;
+                        }
+                        (Err(_), Err(_)) => return,
+                    }
+                }
+            },
+        );
+    }
+}
+
 fn run(ctx: &mut Ctx) {
     run_library(ctx);
+    run_minicairo_library(ctx);
     let tier = ctx.tier;
     let cfgs: Vec<Cfg> = tier.pick(vec![Cfg::DEFAULT], vec![Cfg::DEFAULT, Cfg::BASELINE, Cfg { opt: Opt::Avoid, ..Cfg::DEFAULT }]);
     let snips = snippets(tier);
